@@ -96,7 +96,7 @@ pub(crate) enum XGenerator<W, R, T> {
 impl<W: 'static, R: 'static, T: 'static> XNativeValue for XGenerator<W, R, T> {
     fn dyn_size(&self) -> usize {
         match self {
-            Self::Zip(arr) | Self::Chain(arr) => {
+            Self::Zip(arr) | Self::Chain(arr) | Self::Product(arr) => {
                 arr.len() * size_of::<Rc<ManagedXValue<W, R, T>>>()
             }
             _ => 0,
